@@ -85,6 +85,9 @@ protected:
                             const logger_t&) const = 0;
 
 private:
+    result_t get(const solver_state_t&, solver_state_t&, const vector_t&, scalar_t, int max_iterations,
+                 const logger_t&) const;
+
     // attributes
     lsearch_type m_type{lsearch_type::none}; ///<
 };
